@@ -50,6 +50,10 @@ struct Program {
     torrents: Vec<u8>,
     setup: Vec<POp>,
     threads: Vec<Vec<POp>>,
+    /// torrents put on a Deny-mode access list after the set-up (so the forbidden torrent has stored peers):
+    /// a cleaning pass removes such a torrent whatever its deadlines
+    #[serde(default)]
+    deny: Vec<usize>,
 }
 
 fn hash_of(p: &Program, t: usize) -> [u8; 20] {
@@ -80,32 +84,46 @@ fn templates(thorough: bool) -> Vec<Program> {
     for v6 in [false, true] {
         let fam = if v6 { "v6" } else { "v4" };
         // 1. two announces create the same fresh torrent at once
-        v.push(Program { name: format!("fresh_fresh_{}", fam), v6, torrents: vec![7], setup: vec![], threads: vec![vec![ann(0, 1, 2, 1, 100)], vec![ann(0, 2, 2, 0, 100)]] });
+        v.push(Program { deny: vec![], name: format!("fresh_fresh_{}", fam), v6, torrents: vec![7], setup: vec![], threads: vec![vec![ann(0, 1, 2, 1, 100)], vec![ann(0, 2, 2, 0, 100)]] });
         // 2. announce || clean on a torrent whose only peer is expired (the CHANGELOG window)
-        v.push(Program { name: format!("announce_clean_expired_{}", fam), v6, torrents: vec![7], setup: vec![ann(0, 0, 2, 1, 5)], threads: vec![vec![ann(0, 1, 2, 1, 100)], vec![POp::Clean { now: 10 }]] });
+        v.push(Program { deny: vec![], name: format!("announce_clean_expired_{}", fam), v6, torrents: vec![7], setup: vec![ann(0, 0, 2, 1, 5)], threads: vec![vec![ann(0, 1, 2, 1, 100)], vec![POp::Clean { now: 10 }]] });
         // 3. announce || clean on an entry emptied by a stop
-        v.push(Program { name: format!("announce_clean_stopped_{}", fam), v6, torrents: vec![7], setup: vec![ann(0, 0, 2, 1, 100), ann(0, 0, 3, 1, 100)], threads: vec![vec![ann(0, 1, 2, 0, 100)], vec![POp::Clean { now: 1 }]] });
+        v.push(Program { deny: vec![], name: format!("announce_clean_stopped_{}", fam), v6, torrents: vec![7], setup: vec![ann(0, 0, 2, 1, 100), ann(0, 0, 3, 1, 100)], threads: vec![vec![ann(0, 1, 2, 0, 100)], vec![POp::Clean { now: 1 }]] });
         // 4. stop || announce || clean
-        v.push(Program { name: format!("stop_announce_clean_{}", fam), v6, torrents: vec![7], setup: vec![ann(0, 0, 2, 1, 100)], threads: vec![vec![ann(0, 0, 3, 1, 100)], vec![ann(0, 1, 2, 1, 100)], vec![POp::Clean { now: 1 }]] });
+        v.push(Program { deny: vec![], name: format!("stop_announce_clean_{}", fam), v6, torrents: vec![7], setup: vec![ann(0, 0, 2, 1, 100)], threads: vec![vec![ann(0, 0, 3, 1, 100)], vec![ann(0, 1, 2, 1, 100)], vec![POp::Clean { now: 1 }]] });
         // 5. scrape || announce (two torrents, different shards)
-        v.push(Program { name: format!("scrape_announce_{}", fam), v6, torrents: vec![7, 8], setup: vec![ann(0, 0, 2, 0, 100)], threads: vec![vec![POp::Scrape { ts: vec![0, 1] }], vec![ann(0, 1, 2, 1, 100), ann(1, 1, 2, 0, 100)]] });
+        v.push(Program { deny: vec![], name: format!("scrape_announce_{}", fam), v6, torrents: vec![7, 8], setup: vec![ann(0, 0, 2, 0, 100)], threads: vec![vec![POp::Scrape { ts: vec![0, 1] }], vec![ann(0, 1, 2, 1, 100), ann(1, 1, 2, 0, 100)]] });
         // 6. same key announced from two threads (seeder vs leecher), scraped concurrently
-        v.push(Program { name: format!("same_key_twice_{}", fam), v6, torrents: vec![7], setup: vec![], threads: vec![vec![ann(0, 1, 2, 0, 100)], vec![ann(0, 1, 0, 1, 100)], vec![POp::Scrape { ts: vec![0] }]] });
+        v.push(Program { deny: vec![], name: format!("same_key_twice_{}", fam), v6, torrents: vec![7], setup: vec![], threads: vec![vec![ann(0, 1, 2, 0, 100)], vec![ann(0, 1, 0, 1, 100)], vec![POp::Scrape { ts: vec![0] }]] });
         // 7. inline -> heap switch raced by two announces and a clean that expires one
-        v.push(Program { name: format!("grow_race_{}", fam), v6, torrents: vec![7], setup: vec![ann(0, 0, 2, 0, 5), ann(0, 1, 2, 1, 100)], threads: vec![vec![ann(0, 2, 2, 1, 100)], vec![ann(0, 3, 2, 0, 100)], vec![POp::Clean { now: 10 }]] });
+        v.push(Program { deny: vec![], name: format!("grow_race_{}", fam), v6, torrents: vec![7], setup: vec![ann(0, 0, 2, 0, 5), ann(0, 1, 2, 1, 100)], threads: vec![vec![ann(0, 2, 2, 1, 100)], vec![ann(0, 3, 2, 0, 100)], vec![POp::Clean { now: 10 }]] });
+        // 13. a cleaning pass that removes a torrent forbidden by the access list, raced with a scrape of it and an
+        //     announce that passed the socket worker's check before the list was reloaded
+        {
+            let mut p = Program { deny: vec![0], name: format!("forbidden_clean_scrape_{}", fam), v6, torrents: vec![7], setup: vec![ann(0, 0, 2, 1, 100), ann(0, 1, 2, 0, 100)], threads: vec![vec![POp::Clean { now: 1 }], vec![POp::Scrape { ts: vec![0] }], vec![ann(0, 2, 2, 1, 100)]] };
+            v.push(p.clone());
+            if thorough {
+                // 14. ... with an allowed torrent in the same shard and a heap-sized forbidden one
+                p.name = format!("forbidden_clean_two_torrents_{}", fam);
+                p.torrents = vec![7, 23];
+                p.setup = vec![ann(0, 0, 2, 1, 100), ann(0, 1, 2, 0, 100), ann(0, 3, 2, 0, 100), ann(1, 0, 2, 1, 100)];
+                p.threads = vec![vec![POp::Clean { now: 1 }], vec![POp::Scrape { ts: vec![1, 0] }], vec![ann(1, 2, 2, 1, 100), ann(0, 2, 2, 1, 100)]];
+                v.push(p);
+            }
+        }
         if thorough || !v6 {
             // 8. two cleaners and an announce on an expired-only torrent
-            v.push(Program { name: format!("two_cleaners_{}", fam), v6, torrents: vec![7], setup: vec![ann(0, 0, 2, 1, 5)], threads: vec![vec![ann(0, 1, 2, 1, 100)], vec![POp::Clean { now: 10 }], vec![POp::Clean { now: 11 }]] });
+            v.push(Program { deny: vec![], name: format!("two_cleaners_{}", fam), v6, torrents: vec![7], setup: vec![ann(0, 0, 2, 1, 5)], threads: vec![vec![ann(0, 1, 2, 1, 100)], vec![POp::Clean { now: 10 }], vec![POp::Clean { now: 11 }]] });
             // 9. two ops per thread over two torrents of the same shard
-            v.push(Program { name: format!("two_torrents_same_shard_{}", fam), v6, torrents: vec![7, 23], setup: vec![ann(0, 0, 2, 1, 5), ann(1, 0, 2, 1, 5)], threads: vec![vec![ann(0, 1, 2, 1, 100), ann(1, 1, 2, 1, 100)], vec![POp::Clean { now: 10 }]] });
+            v.push(Program { deny: vec![], name: format!("two_torrents_same_shard_{}", fam), v6, torrents: vec![7, 23], setup: vec![ann(0, 0, 2, 1, 5), ann(1, 0, 2, 1, 5)], threads: vec![vec![ann(0, 1, 2, 1, 100), ann(1, 1, 2, 1, 100)], vec![POp::Clean { now: 10 }]] });
         }
         if thorough {
             // 10. announce, stop and re-announce vs clean (3 ops in one thread)
-            v.push(Program { name: format!("churn_vs_clean_{}", fam), v6, torrents: vec![7], setup: vec![], threads: vec![vec![ann(0, 1, 2, 1, 100), ann(0, 1, 3, 1, 100), ann(0, 1, 2, 0, 100)], vec![POp::Clean { now: 1 }, POp::Clean { now: 2 }]] });
+            v.push(Program { deny: vec![], name: format!("churn_vs_clean_{}", fam), v6, torrents: vec![7], setup: vec![], threads: vec![vec![ann(0, 1, 2, 1, 100), ann(0, 1, 3, 1, 100), ann(0, 1, 2, 0, 100)], vec![POp::Clean { now: 1 }, POp::Clean { now: 2 }]] });
             // 11. three announcers on an expired-only torrent and a cleaner
-            v.push(Program { name: format!("three_announcers_clean_{}", fam), v6, torrents: vec![7], setup: vec![ann(0, 0, 2, 1, 5)], threads: vec![vec![ann(0, 1, 2, 1, 100)], vec![ann(0, 2, 2, 0, 100)], vec![POp::Clean { now: 10 }]] });
+            v.push(Program { deny: vec![], name: format!("three_announcers_clean_{}", fam), v6, torrents: vec![7], setup: vec![ann(0, 0, 2, 1, 5)], threads: vec![vec![ann(0, 1, 2, 1, 100)], vec![ann(0, 2, 2, 0, 100)], vec![POp::Clean { now: 10 }]] });
             // 12. heap -> inline shrink by clean raced with stop and scrape
-            v.push(Program { name: format!("shrink_race_{}", fam), v6, torrents: vec![7], setup: vec![ann(0, 0, 2, 0, 5), ann(0, 1, 2, 1, 5), ann(0, 2, 2, 1, 100), ann(0, 3, 2, 0, 100)], threads: vec![vec![ann(0, 3, 3, 0, 100)], vec![POp::Clean { now: 10 }], vec![POp::Scrape { ts: vec![0] }]] });
+            v.push(Program { deny: vec![], name: format!("shrink_race_{}", fam), v6, torrents: vec![7], setup: vec![ann(0, 0, 2, 0, 5), ann(0, 1, 2, 1, 5), ann(0, 2, 2, 1, 100), ann(0, 3, 2, 0, 100)], threads: vec![vec![ann(0, 3, 3, 0, 100)], vec![POp::Clean { now: 10 }], vec![POp::Scrape { ts: vec![0] }]] });
         }
     }
     v
@@ -260,10 +278,20 @@ fn run_leaf(p: &Program, prefix: &[usize], grace: Duration) -> LeafResult {
     let (tx, rx) = unbounded();
     let mut config = Config::default();
     config.protocol.max_response_peers = 100;
+    if !p.deny.is_empty() {
+        config.access_list.mode = aquatic_common::access_list::AccessListMode::Deny;
+    }
     let env = Arc::new(Env { maps: TorrentMaps::default(), config, stats: Default::default(), access: Arc::new(AccessListArcSwap::default()), tx });
     let mut rng = SmallRng::seed_from_u64(1);
     for op in &p.setup {
         exec(&env, p, op, &mut rng);
+    }
+    if !p.deny.is_empty() {
+        let mut l = aquatic_common::access_list::AccessList::default();
+        for t in &p.deny {
+            l.insert_from_line(&vcore::hex(&hash_of(p, *t))).unwrap();
+        }
+        env.access.store(Arc::new(l));
     }
     let n = p.threads.len();
     let sched = Arc::new(Sched {
@@ -422,7 +450,13 @@ fn check_leaf(p: &Program, leaf: &LeafResult) -> Result<u64, String> {
                         }
                     }
                 }
-                (POp::Clean { now }, _) => ops.push(LOp { actor: r.thread, call: r.call, ret: r.ret, kind: LKind::Expire { now: *now as u64 } }),
+                (POp::Clean { now }, _) => {
+                    ops.push(LOp { actor: r.thread, call: r.call, ret: r.ret, kind: LKind::Expire { now: *now as u64 } });
+                    if p.deny.contains(&t) {
+                        // phase 2 of the same pass removes the forbidden torrent: a second atomic step
+                        ops.push(LOp { actor: r.thread, call: r.call, ret: r.ret, kind: LKind::Expire { now: u64::MAX } });
+                    }
+                }
                 _ => {}
             }
         }
@@ -626,6 +660,7 @@ fn main() {
         report.add(&format!("leaves.{}", p.name), leaves);
         report.add("leaves", leaves);
     }
+    check_lock_order(&mut report, "udp_sched");
     report.add("programs", programs);
     report.add("programs_enumerated_exhaustively", exhaustive_programs);
     report.add("forced_switches(released thread blocked on a lock of a parked thread)", total_forced);
